@@ -632,7 +632,7 @@ func runC01(c *Ctx) {
 	// every NAT translation deep-clones: Clone copies userData into a fresh slice
 	if cl := p.Func("vnet", "chunkUDP", "Clone"); cl != nil {
 		ok2 := false
-		instrsOf(cl, func(in ssa.Instruction) {
+		instrsOfU(cl, func(in ssa.Instruction) {
 			if isCall(in, "builtin.copy") {
 				a := in.(*ssa.Call).Call.Args
 				if _, isMk := rootOf(a[0]).(*ssa.MakeSlice); isMk && isFieldLoad(a[1], "vnet.chunkUDP", "userData") {
